@@ -90,6 +90,25 @@ pub fn replay_random(case: &Value, rep: &mut Report) {
                     }
                 }
             }
+            // the interval of one call says nothing about the next: a generator asked for (0, 1) and then for (10, 20) answers the
+            // second call from ITS interval, with the state the second draw of any sequence from this seed has
+            let mixed = guarded(|| {
+                let mut g = Generator::create(x);
+                let _ = g.generate(0.0, 1.0);
+                let second = g.generate(10.0, 20.0);
+                let mut h = Generator::create(x);
+                let _ = h.generate(10.0, 20.0);
+                (second, h.generate(10.0, 20.0))
+            });
+            rep.checks += 1;
+            match mixed {
+                Err(p) => rep.mismatch("C18", "generate_panicked", &id, json!({"panic": p, "sequence": "(0,1) then (10,20)"}), case),
+                Ok((second, reference)) => {
+                    if !(second >= 10.0 && second <= 20.0) || second.to_bits() != reference.to_bits() {
+                        rep.mismatch("C18", "value_depends_on_the_interval_of_an_earlier_call", &id, json!({"second": second, "reference": reference}), case);
+                    }
+                }
+            }
             // pure function of the seed
             let a: Vec<u32> = { let mut g = Generator::create(x); (0..4).map(|_| g.generate(-1.0, 1.0).to_bits()).collect() };
             let b: Vec<u32> = { let mut g = Generator::create(x); (0..4).map(|_| g.generate(-1.0, 1.0).to_bits()).collect() };
